@@ -221,7 +221,8 @@ class SystemClock(Clock, metaclass=MetaSystemClock):
                     if now >= sched_secs:
                         break
                     # cls._sched_cond.wait(sched_point - now)
-                    cls._sched_cond.wait(sched_secs - now)
+                    cls._sched_cond.wait(  # A far but finite time.
+                        min(sched_secs - now, threading.TIMEOUT_MAX))
                     if not cls._run_sched:
                         return
 
@@ -473,6 +474,8 @@ class AppClock(Clock, metaclass=MetaAppClock):
                     seconds = seconds - cls._scheduler.seconds  # tick returns abstime (elapsed)
                 if not cls._run_sched:
                     return
+                if seconds is not None:
+                    seconds = min(seconds, threading.TIMEOUT_MAX)
                 cls._tick_cond.wait(seconds)  # if seconds is None waits for notify
 
     @classmethod
@@ -853,8 +856,9 @@ class TempoClock(Clock, metaclass=MetaTempoClock):
                     if elapsed_beats >= qpeek[0]:
                         break
                     sched_secs = self.beats2secs(qpeek[0])
-                    self._sched_cond.wait(
-                        sched_secs - _libsc3.main.elapsed_time())
+                    self._sched_cond.wait(min(
+                        sched_secs - _libsc3.main.elapsed_time(),
+                        threading.TIMEOUT_MAX))  # A far but finite time.
                     if not self._run_sched:
                         return
 
